@@ -924,7 +924,9 @@ class Variable(CanBehaveLikeAVariable[T]):
             self._update_domain_(self._domain_source_.domain)
 
     def _update_domain_(self, domain):
-        if domain:
+        # (a single object given as the domain is a domain of one value, also when the object is falsy - an instance of
+        # a class with __len__ or __bool__.)
+        if domain or (domain is not None and not is_iterable(domain)):
             new_domain = None
             if isinstance(domain, HashedIterable):
                 self._domain_ = domain
